@@ -189,7 +189,7 @@ func (e *Enc) externalModel(callee *ssa.Function) bool {
 	case "strings.HasPrefix", "strings.HasSuffix", "strings.Contains", "strings.TrimPrefix", "strings.TrimSuffix", "strings.Index",
 		"errors.New", "fmt.Errorf", "fmt.Sprintf", "fmt.Sprint", "strings.Repeat",
 		"sync/atomic.LoadInt32", "sync/atomic.StoreInt32", "sync/atomic.AddInt32", "sync/atomic.CompareAndSwapInt32",
-		"sync/atomic.LoadInt64", "sync/atomic.StoreInt64", "sync/atomic.AddInt64", "sort.Slice", "sort.SliceStable", "regexp.MustCompile", "regexp.(*Regexp).MatchString", "strings.Trim", "strings.Split", "strings.SplitN":
+		"sync/atomic.LoadInt64", "sync/atomic.StoreInt64", "sync/atomic.AddInt64", "sort.Slice", "sort.SliceStable", "regexp.MustCompile", "regexp.(*Regexp).MatchString", "strings.Trim", "strings.Split", "strings.SplitN", "strings.ContainsAny":
 		return true
 	}
 	return false
@@ -215,6 +215,32 @@ func (f *Frame) externalCall(callee *ssa.Function, args []string, argVals []ssa.
 		return one(fmt.Sprintf("(str.contains %s %s)", args[0], args[1]))
 	case "strings.Index":
 		return one(fmt.Sprintf("(str.indexof %s %s 0)", args[0], args[1]))
+	case "strings.ContainsAny":
+		// exact only for a constant set of ASCII characters: the disjunction of the single-character containments
+		if c, ok := argVals[1].(*ssa.Const); ok && c.Value != nil && c.Value.Kind() == constant.String {
+			chars := constant.StringVal(c.Value)
+			ascii := true
+			for _, r := range chars {
+				if r >= 0x80 || r == '"' || r == '\\' || r < 0x20 {
+					ascii = false
+				}
+			}
+			if ascii {
+				if chars == "" {
+					return one("false")
+				}
+				var ds []string
+				seen := map[rune]bool{}
+				for _, r := range chars {
+					if !seen[r] {
+						seen[r] = true
+						ds = append(ds, fmt.Sprintf("(str.contains %s \"%c\")", args[0], r))
+					}
+				}
+				return one("(or " + strings.Join(ds, " ") + " false)")
+			}
+		}
+		return callOut{}, false
 	case "strings.TrimPrefix":
 		s, p := args[0], args[1]
 		return one(fmt.Sprintf("(ite (str.prefixof %s %s) (str.substr %s (str.len %s) (- (str.len %s) (str.len %s))) %s)", p, s, s, p, s, p, s))
